@@ -342,6 +342,18 @@ def _order_total(rows):
     return len({tuple(sorted(r.items())) for r in rows}) == len(rows)
 
 
+def determinate_env(prog, env):
+    """`determinate` for a program over an environment that already exists (any leaves)."""
+    from .prog import sem_seq
+    from .symx import Skip
+
+    try:
+        sem_seq(prog, env)
+    except Skip:
+        return False
+    return True
+
+
 def determinate(prog, bind):
     """The program has a reference result (DESIGN 2.4): no slice acts on an order SQL does not define."""
     from .prog import sem_seq
